@@ -34,7 +34,7 @@ def run(ctx) -> None:
     writer_rules(ctx, "C07.H.record-format", "C07.H.record-terminator")
     # H: record fields come only from the address / mnemonic / operand groups (a '<sym::bol>' annotation never enters)
     from ._parser import instr_patterns, operands_from_operand_group
-    _paths, _sites, _pats = instr_patterns(make_interp(ctx.p))
+    _paths, _sites, _pats = instr_patterns(make_interp(ctx.p), ctx)
     operands_from_operand_group(ctx, "C07.H.operands-only-from-operand-group", make_interp(ctx.p), _sites)
     from ._parser import parser_never_swallows, site_field_kinds
     parser_never_swallows(ctx, "C07.H.no-instruction-silently-dropped")
@@ -102,6 +102,9 @@ def run(ctx) -> None:
     # right after the rule's config was loaded; matching reuses it)
     from ._matchrules import compiled_with_own_config
     compiled_with_own_config(ctx, "C07.Q.compiled-with-own-config")
+    # the pattern searched is the compiled rule itself, in every mode
+    from ._matchrules import searched_pattern_is_the_rule
+    searched_pattern_is_the_rule(ctx, "C07.P6.searched-pattern-is-the-rule")
 
 
 def _shape(expr: str) -> str:
